@@ -4,7 +4,7 @@
 
 package tunescape
 
-//@ property C15 C07
+//@ property C15 C07 C12
 
 //@ global len(unescaper.escapableCharMap) == 256
 
@@ -18,6 +18,7 @@ package tunescape
 //@   ensures[no-escape-char-untouched] (forall i int :: 0 <= i && i < len(old(record.Fields[tf.keyLocator])) ==> old(record.Fields[tf.keyLocator])[i] != unescaper.escapeChar)
 //@        ==> record.Fields[tf.keyLocator] === old(record.Fields[tf.keyLocator])
 //@   ensures[never-longer] len(record.Fields[tf.keyLocator]) <= len(old(record.Fields[tf.keyLocator]))
+//@   ensures[new-value-is-the-old-one-or-a-private-copy] record.Fields[tf.keyLocator] === old(record.Fields[tf.keyLocator]) || !shared(record.Fields[tf.keyLocator])
 
 // ==== configuration: verify => construct (C16) ===================================================================================
 //@ pure func cfgok(c *Config, s base.LogSchema) bool := len(c.Key) > 0 && base.hasf(s, key(c.Key))
